@@ -3,17 +3,41 @@
 
 Input: a TSV written by `mc tzref-dump <out>`: file name, unix timestamp, offset the reference
 model assigns.  For every line the same file is loaded with zoneinfo.ZoneInfo.from_file and the
-offset CPython computes is compared.  Exit 0 iff all agree.  Prints `agree=<n> disagree=<m>`.
+offset CPython computes is compared.  Lines whose name starts with '@' belong to synthesised
+table-free files in <synthdir>; their footer (a POSIX TZ string) is judged by glibc through
+time.tzset().  Exit 0 iff all agree.  Prints `agree=<n> disagree=<m>`.
 """
-import sys, zoneinfo, datetime, collections
+import sys, os, time, zoneinfo, datetime, collections
 corpus, tsv = sys.argv[1], sys.argv[2]
+synth = sys.argv[3] if len(sys.argv) > 3 else None
 zones = {}
 agree = disagree = 0
 examples = []
+cur_synth, nsynth = None, 0
 utc = datetime.timezone.utc
 for line in open(tsv):
     name, ts, off = line.rstrip('\n').split('\t')
     ts, off = int(ts), int(off)
+    if name.startswith('@'):
+        # synthesised, table-free file: the footer is a POSIX TZ string, judged by glibc (time.tzset);
+        # CPython 3.11's zoneinfo mis-evaluates the Jn / n day forms, glibc does not
+        if name != cur_synth:
+            with open(synth + '/' + name[1:], 'rb') as f:
+                footer = f.read().split(b'\n')[-2].decode('ascii')
+            os.environ['TZ'] = footer
+            time.tzset()
+            cur_synth = name
+            nsynth += 1
+        if ts < 31_536_000:
+            continue  # glibc evaluates rules of years before 1971 as if they were 1970's
+        got = time.localtime(ts).tm_gmtoff
+        if got == off:
+            agree += 1
+        else:
+            disagree += 1
+            if len(examples) < 10:
+                examples.append((name + ' ' + footer, ts, off, got))
+        continue
     z = zones.get(name)
     if z is None:
         with open(corpus + '/' + name, 'rb') as f:
@@ -29,7 +53,7 @@ for line in open(tsv):
         disagree += 1
         if len(examples) < 10:
             examples.append((name, ts, off, got))
-print('agree=%d disagree=%d files=%d' % (agree, disagree, len(zones)))
+print('agree=%d disagree=%d files=%d synthesised_footers_judged_by_glibc=%d' % (agree, disagree, len(zones), nsynth))
 for e in examples:
     print('  DISAGREE file=%s ts=%d reference=%d cpython=%d' % e)
 sys.exit(1 if disagree else 0)
